@@ -243,6 +243,15 @@ class Builtins:
             nm = {bool: "bool", int: "int", float: "float", str: "str", SName: "str", SStr: "str", list: "list",
                   tuple: "tuple", SDict: "dict", SSet: "set"}[type(o)]
             return ClassRef(BuiltinClass(nm))
+        from . import gmode as _gm
+        if isinstance(o, _gm.SList) and attr == "append":
+            def sapp(a, k):
+                # the list object is updated in place (aliases see it): one more element at the end
+                I.heap_log.append(("mutate-list", I.heap_log.note(o), attr, I.where()))
+                n0, elem0, item = o.length, o.elem, a[0]
+                o.elem = lambda u, n0=n0, elem0=elem0, item=item: _gm.cond_value(u == n0, item, elem0(u))
+                o.length = z3.simplify(n0 + 1)
+            return Builtin("list.append", sapp)
         if isinstance(o, list) and not isinstance(o, GeneratorList):
             if attr == "append":
                 def app(a, k):
